@@ -58,11 +58,11 @@ Definition lex_set_extension (p : lexpath) (ext : str) : lexpath :=
   | [] => p
   end.
 
-(* file_name + "." + ext through set_file_name: a path without file name gets a new component *)
+(* file_name + "." + ext through set_file_name; a path without file name is left alone *)
 Definition lex_append_ext (p : lexpath) (ext : str) : lexpath :=
   match rev p with
-  | n :: r => if is_normal n then rev r ++ [n ++ [DOT] ++ ext] else p ++ [[DOT] ++ ext]
-  | [] => [[DOT] ++ ext]
+  | n :: r => if is_normal n then rev r ++ [n ++ [DOT] ++ ext] else p
+  | [] => p
   end.
 
 (* fs/path/mod.rs:46-62 *)
